@@ -69,6 +69,13 @@ func (g *Global) verifyFunc(key string) (res *FuncResult) {
 			penv.vars[k] = v
 		}
 		tr.bindResults(penv, fn.Signature, r.val)
+		if len(fc.Frames) > 0 {
+			mods := g.modsetFor(key, fc, fn)
+			fenv := &CEnv{vars: env.vars, st: tr.oldState, old: tr.oldState, pkg: env.pkg}
+			for _, ff := range tr.frameFormulas(fc, mods, fenv, tr.oldState, r.st) {
+				tr.oblige(r.st, "frame", ff.name, nil, ff.formula, "frame: only the listed objects are modified in "+ff.name)
+			}
+		}
 		for _, en := range fc.Ensures {
 			goal := tr.evalBool(penv, en.Expr)
 			lbl := en.Label
